@@ -92,3 +92,43 @@ Theorem C09_source_eq_rank_512 : forall w s t, width_ok w -> Forall (fun x => x 
   = g_qwt512_rank w (q_n t) (q_n_levels t) (q_sigma t) (qwt_data t) (qwt_sbs t) (qwt_occs t) c i.
 Proof. exact g_qwt512_rank_prefetch_eq_rank. Qed.
 Print Assumptions C09_source_eq_rank_512.
+
+(* ---- the same for the Huffman-shaped types without prefetch support (HQWT256 / HQWT512): rank_prefetch(_unchecked) of
+   src/quadwt/huffqwt.rs REGENERATED (T5, Gen/FnsHqwt.v: the code lookup, the `while shift >= 2` estimation loop, the prefetch
+   arguments, then rank_unchecked): on every built tree the estimation never faults and has no effect; rank_prefetch = rank for
+   every symbol (with or without a code, inside or outside the table) and every position. *)
+From QwtModel Require Import FnsHqwt FnsHqwtOk FnsHqwtPrefetchOk HQWTP.
+Theorem C09_source_hqwt_eq_rank_256 : forall w seq tab t fuel, width_ok w ->
+  Forall (fun x => x < 2 ^ w) seq -> len seq < RSQ_MAXN -> table_ok seq tab ->
+  hq_build 256 seq tab = Val t -> (17 <= fuel)%nat ->
+  forall c i,
+  g_hqwt256_rank_prefetch fuel w (h_n t) (hq_enc_content t) (hq_enc_len t) (hq_data t) (hq_sbs t) (hq_occs t) c i
+  = g_hqwt256_rank fuel w (h_n t) (hq_enc_content t) (hq_enc_len t) (hq_data t) (hq_sbs t) (hq_occs t) c i.
+Proof. exact g_hqwt256_rank_prefetch_eq_rank. Qed.
+Print Assumptions C09_source_hqwt_eq_rank_256.
+Theorem C09_source_hqwt_eq_rank_512 : forall w seq tab t fuel, width_ok w ->
+  Forall (fun x => x < 2 ^ w) seq -> len seq < RSQ_MAXN -> table_ok seq tab ->
+  hq_build 512 seq tab = Val t -> (17 <= fuel)%nat ->
+  forall c i,
+  g_hqwt512_rank_prefetch fuel w (h_n t) (hq_enc_content t) (hq_enc_len t) (hq_data t) (hq_sbs t) (hq_occs t) c i
+  = g_hqwt512_rank fuel w (h_n t) (hq_enc_content t) (hq_enc_len t) (hq_data t) (hq_sbs t) (hq_occs t) c i.
+Proof. exact g_hqwt512_rank_prefetch_eq_rank. Qed.
+Print Assumptions C09_source_hqwt_eq_rank_512.
+Theorem C09_source_hqwt_built_256 : forall w seq tab t fuel, width_ok w ->
+  Forall (fun x => x < 2 ^ w) seq -> len seq < RSQ_MAXN -> table_ok seq tab ->
+  hq_build 256 seq tab = Val t ->
+  (17 <= fuel)%nat -> (S (S (N.to_nat (len seq / (8 * 256)))) <= fuel)%nat ->
+  forall c i, c < 2 ^ w -> i < 2 ^ 64 ->
+  g_hqwt256_rank_prefetch fuel w (h_n t) (hq_enc_content t) (hq_enc_len t) (hq_data t) (hq_sbs t) (hq_occs t) c i
+  = Val (if (i <=? len seq) && (0 <? countN c seq) then Some (rank_spec seq c i) else None).
+Proof. exact g_hqwt256_rank_prefetch_built. Qed.
+Print Assumptions C09_source_hqwt_built_256.
+Theorem C09_source_hqwt_built_512 : forall w seq tab t fuel, width_ok w ->
+  Forall (fun x => x < 2 ^ w) seq -> len seq < RSQ_MAXN -> table_ok seq tab ->
+  hq_build 512 seq tab = Val t ->
+  (17 <= fuel)%nat -> (S (S (N.to_nat (len seq / (8 * 512)))) <= fuel)%nat ->
+  forall c i, c < 2 ^ w -> i < 2 ^ 64 ->
+  g_hqwt512_rank_prefetch fuel w (h_n t) (hq_enc_content t) (hq_enc_len t) (hq_data t) (hq_sbs t) (hq_occs t) c i
+  = Val (if (i <=? len seq) && (0 <? countN c seq) then Some (rank_spec seq c i) else None).
+Proof. exact g_hqwt512_rank_prefetch_built. Qed.
+Print Assumptions C09_source_hqwt_built_512.
